@@ -77,7 +77,10 @@ TRUSTED = [
     "surface_tessellations (shapely) and match_grids_along_1d_mortar are NOT modelled in Lean: oracle only "
     "(exact Sutherland-Hodgman clipping over Fractions / interval intersection as independent reference)",
     "the C44 model's clipping functions (shClip2, halfPlanes, area2) and its theorem sh2_convex1 are imported (LEAN_DIRS = C44)",
-    "binary64 rounding of sqrt and of the division by cell volumes (comparison: exact for dyadic inputs' triples, 1e-12 otherwise)",
+    "line_tessellation's normalisation (commit effe5a4eb: origin = min corner, scale = largest bounding-box side of both tessellations) is not a "
+    "separate model function: lengths are invariant under it and its only effect, the tolerance 1e-8 of segments_3d becoming RELATIVE, is passed to the "
+    "model as ptol = 1e-8 * scale * L / |d_k| (computed by the harness from the case, exact rational); near-tolerance cases straddle that relative band",
+    "binary64 rounding of the normalisation, sqrt and of the division by cell volumes (weights compared with 1e-12 relative)",
 ]
 EXPLANATION = ("FULL in 1-D: model = double loop of line_tessellation over the collinear branch of segments_3d + the three scaling branches of "
                "match_1d + coo->dense; theorems: non-negativity (any cell lists), entry = length of the interval intersection, row/column sums = cell "
@@ -157,9 +160,15 @@ def _gen_1d(rng, tier):
     loose = rng.random() < 0.12
     near = False
     if dyadic and not loose and rng.random() < 0.15 and len(ta) > 2:
-        # nodes of b next to nodes of a: 2^-30 (closer than the tolerance 1e-8 of segments_3d in every coordinate) or 2^-25 (farther)
+        # nodes of b next to nodes of a, closer / farther than the tolerance of segments_3d
         near = True
-        tb = sorted(set([lo, hi] + [x + rng.choice([1, -1]) * rng.choice([F(1, 2 ** 30), F(1, 2 ** 25)]) for x in rng.sample(ta[1:-1], rng.randint(1, len(ta) - 2))]
+        # offsets (powers of two) on both sides of the now scale-relative tolerance: 1e-8 * scale / |d_k| in the node parameter
+        r_t = F(1e-8) * max(abs(c) for c in d) * length / abs([c for c in d if c != 0][0])
+        below = F(1, 2 ** 40)
+        while below * 4 <= r_t:
+            below *= 2          # r_t/4 < below <= r_t/2
+        above = below * 8       # 2 r_t < above <= 4 r_t
+        tb = sorted(set([lo, hi] + [x + rng.choice([1, -1]) * rng.choice([below, above]) for x in rng.sample(ta[1:-1], rng.randint(1, len(ta) - 2))]
                         + [x for x in tb[1:-1] if rng.random() < 0.5]))
         # cells of b must stay longer than the tolerance (ASSUMPTIONS): drop a node that is next to the previous one
         kept = [tb[0]]
@@ -204,13 +213,14 @@ def _gen_1d(rng, tier):
     case = {"kind": "1d", "dir": d, "len": L, "origin": [frac(x) for x in origin], "a": ga, "b": gb, "dyadic": dyadic, "loose": loose, "near": near, "big": big}
     # tolerance of the unscaled matrix: keep it away from every overlap length (no float/rational tie)
     ws = [w for row in _overlaps_1d(case) for w in row]
+    exact = _exact_norm(case)
     for tol in rng.sample([F(1, 10000), F(1, 8), F(1, 2), F(1), F(3)], 5):
-        if all(abs(w - tol) > F(1, 10 ** 6) or (dyadic and w == tol) for w in ws):
+        if all(abs(w - tol) > F(1, 10 ** 6) or (exact and w == tol) for w in ws):
             break
     else:
         tol = F(1, 10 ** 7)
     pos = [w for w in ws if w > 0]
-    if dyadic and not near and pos and rng.random() < 0.35:
+    if exact and pos and rng.random() < 0.6:
         tol = rng.choice(pos)  # exact tie `weight == tol` (binary64 exact): strict comparison in match_1d
     case["tol"] = frac(tol)
     return case
@@ -316,9 +326,25 @@ def _sigma(case):
 
 
 def _ptol(case):
-    """tolerance 1e-8 of segments_3d (compared with a difference of the first non-constant coordinate) in arc-length units"""
+    """tolerance 1e-8 of segments_3d in arc-length units.  Since /repo commit effe5a4eb line_tessellation first moves both
+    tessellations to origin = min corner and divides by scale = largest side of their common bounding box, so the tolerance
+    (compared with a difference of the first non-constant NORMALISED coordinate) is relative: 1e-8 * scale * L / |d_k|."""
     dk = abs([c for c in case["dir"] if c != 0][0])
-    return F(1e-8) * case["len"] / dk
+    ts = [F(x) for w in ("a", "b") for c in case[w]["cells"] for x in (case[w]["nodes"][c[0]], case[w]["nodes"][c[1]])]
+    scale = max(abs(c) for c in case["dir"]) * (max(ts) - min(ts)) if ts else F(1)
+    if not scale > 0:
+        scale = F(1)
+    return F(1e-8) * scale * case["len"] / dk
+
+
+def _exact_norm(case):
+    """line_tessellation's normalisation is exact in binary64 (dyadic nodes, scale a power of two): only then a tie
+    `weight == tol` of match_1d's unscaled branch is decided identically by the code and by exact arithmetic"""
+    if not case["dyadic"] or case.get("near") or case["loose"]:
+        return False
+    ts = [F(x) for w in ("a", "b") for x in case[w]["nodes"]]
+    sc = max(abs(c) for c in case["dir"]) * (max(ts) - min(ts))
+    return sc > 0 and sc.numerator & (sc.numerator - 1) == 0 and sc.denominator & (sc.denominator - 1) == 0
 
 
 def _cells_param(case, which):
@@ -692,12 +718,19 @@ def compare(impl, model, case):
         return f"reported (i, j) pairs differ: impl {[t[:2] for t in ti]} vs model {[t[:2] for t in tm]}"
     for x, y in zip(ti, tm):
         wi, wm = F(x[2]), F(y[2])
-        if case["dyadic"] and not case.get("near") and not case.get("big"):
-            if wi != wm:
-                return f"weight of pair {x[:2]}: impl {wi} vs model {wm} (dyadic input: exact comparison)"
+        if False:  # (exact comparison of dyadic inputs dropped: line_tessellation now divides the coordinates by `scale`)
+            pass
         elif abs(wi - wm) > 1e-12 * max(1, abs(wm)):
             return f"weight of pair {x[:2]}: impl {float(wi)!r} vs model {float(wm)!r}"
     d = deep_compare(impl["none"], model["none"], "none")
+    if d and not _exact_norm(case):
+        # a tie `weight == tol` may be decided either way after the (inexact) normalisation: ignore entries whose weight is at the tolerance
+        tolf, wd = float(F(case["tol"])), {(t[0], t[1]): float(F(t[2])) for t in tm}
+        d = None
+        for i, (ri, rm) in enumerate(zip(impl["none"], model["none"])):
+            for j, (x, y) in enumerate(zip(ri, rm)):
+                if F(x) != F(y) and abs(wd.get((i, j), 0.0) - tolf) > 1e-9 * max(1.0, tolf):
+                    d = f"none[{i}][{j}]: {x} vs {y}"
     if d:
         return d
     for k in ("avg", "int", "other"):
@@ -793,7 +826,8 @@ def _oracle_1d(case):
     if np.abs(I * vol_b.reshape(1, -1) - R).max() > 1e-10 * scale + slack:
         return _fail("1d: integrated matrix is not overlap / measure of the old cell", "1d-integrated-value")
     tol = float(F(case["tol"]))
-    if not np.array_equal(Nn != 0, R > tol) or not np.all((Nn == 0) | (Nn == 1)):
+    sure = (np.abs(R - tol) > 1e-9 * scale) | _exact_norm(case)
+    if not np.array_equal((Nn != 0)[sure], (R > tol)[sure]) or not np.all((Nn == 0) | (Nn == 1)):
         return _fail("1d: unscaled matrix is not the indicator of overlaps > tol", "1d-none-value")
     return None
 
